@@ -590,7 +590,9 @@ AllValid(S, c) ==
               \/ IsNone(c.vals[k])
               \/ c.vals[k].t = "list" /\ \A j \in DOMAIN c.vals[k].l :
                                             IsCfg(c.vals[k].l[j]) /\ AllValid(f.item, c.vals[k].l[j])
-         ELSE IsNone(c.vals[k]) \/ Meets(f, c.vals[k]))
+         \* ("required" is not one of the constraints C01 lists - being set is C11's subject: a
+         \* required list emptied in place is still a list of valid items)
+         ELSE IsNone(c.vals[k]) \/ Meets([f EXCEPT !.required = FALSE], c.vals[k]))
 
 \* all (path, key) pairs of stored fields, for frame conditions
 RECURSIVE LeafPaths(_, _)
